@@ -100,9 +100,22 @@ fn same_exec(a: &ExecTrace, b: &ExecTrace) -> Option<String> {
         let n = a.items.iter().zip(b.items.iter()).position(|(x, y)| x != y).unwrap_or(a.items.len().min(b.items.len()));
         return Some(format!("decision/draw traces differ at item {}: {:?} vs {:?}", n, a.items.get(n), b.items.get(n)));
     }
-    if a.events != b.events {
-        let n = a.events.iter().zip(b.events.iter()).position(|(x, y)| x != y).unwrap_or(a.events.len().min(b.events.len()));
-        return Some(format!("event logs differ at event {}: {:?} vs {:?}", n, a.events.get(n), b.events.get(n)));
+    // Events logged by tasks must be identical, in order. Events logged by the teardown of the
+    // execution (no current task: destructors of statics / abandoned stacks after the last step)
+    // are compared as a multiset: after a *failing* execution the runtime drops its per-execution
+    // storage in hash-map order, which no property statement constrains.
+    let ta: Vec<_> = a.events.iter().filter(|e| e.task != u32::MAX).collect();
+    let tb: Vec<_> = b.events.iter().filter(|e| e.task != u32::MAX).collect();
+    if ta != tb {
+        let n = ta.iter().zip(tb.iter()).position(|(x, y)| x != y).unwrap_or(ta.len().min(tb.len()));
+        return Some(format!("event logs differ at event {}: {:?} vs {:?}", n, ta.get(n), tb.get(n)));
+    }
+    let mut da: Vec<String> = a.events.iter().filter(|e| e.task == u32::MAX).map(|e| format!("{}{}={}", e.kind, e.op, e.val)).collect();
+    let mut db: Vec<String> = b.events.iter().filter(|e| e.task == u32::MAX).map(|e| format!("{}{}={}", e.kind, e.op, e.val)).collect();
+    da.sort();
+    db.sort();
+    if da != db {
+        return Some(format!("teardown events differ: {:?} vs {:?}", da, db));
     }
     None
 }
